@@ -32,11 +32,11 @@ var (
 		"datetime", "rand", "round", "expr", "=", "let", "cd", "getfile", "tout", "null",
 	}
 	verifArgs = []string{
-		"", "-1", "--bad", "-", "0", "99999999999999999999", "[", "]", "{", "{}", "''", "x", "..", "[-5]", "[:]",
-		"1..", "--", "-x=", "\\", "$nope", "@nope", "%[", "<!out>", "<foo>", "json", "str", "*", "?",
+		"", "-1", "--bad", "--sum", "-", "0", "99999999999999999999", "[", "]", "{", "{}", "''", "x", "..", "[-5]", "[:]",
+		"1..", "--", "-x=", "\\", "$nope", "@nope", "%[", "<!out>", "<foo>", "json", "str", "*", "?", "-s", "--unique", "--total", "-t", "--help", "-h",
 	}
 	verifProducers = []string{
-		"", "tout json [1,2,3] -> ", "tout json {\"a\":1} -> ", "tout str x -> ", "tout json [1, -> ", "tout int x -> ",
+		"", "tout json [1,[2,3],{\"a\":4}] -> ", "tout json {\"a\":1} -> ", "tout str x -> ", "tout json [1, -> ", "tout int x -> ",
 	}
 )
 
